@@ -284,8 +284,8 @@ def chk_qrom(rng, tier):
     c_extra = 1 if (rng.random() < 0.25 and c < 3) else 0   # documented: extra control wires = most-significant address bits
     nw = rng.choice([0, 0, 1, b, 2 * b, b + 1, 3 * b, 3 * b])
     clean = rng.random() < 0.6
-    if c + c_extra + b + nw > (7 if tier == "quick" else 9):
-        nw = max(0, (7 if tier == "quick" else 9) - c - c_extra - b)
+    if c + c_extra + b + nw > (7 if tier == "quick" else 8):
+        nw = max(0, (7 if tier == "quick" else 8) - c - c_extra - b)
     lab = labels_for(rng, c + c_extra + b + nw)
     ct = c + c_extra
     control, target, work = lab[:ct], lab[ct:ct + b], lab[ct + b:]
@@ -1010,7 +1010,15 @@ def chk_qsvt(rng, tier):
         if op is None:
             return None
         wo = wires
-        target = polyval_mat(poly, A.astype(complex))
+        Aeff = A
+        if enc == "embedding" and d > 1:
+            # BlockEncode's documented normalisation (hyperparameters["norm"] = max(||A A^dag||, ||A^dag A||), infinity norm in the
+            # code) also applies when ||A||_2 <= 1 < ||A A^dag||_inf: the block-encoded matrix is then A / norm
+            Nn = max(np.linalg.norm(A @ A.conj().T, np.inf), np.linalg.norm(A.conj().T @ A, np.inf))
+            Aeff = A / max(Nn, 1.0)
+            if Nn > 1:
+                COUNTS["QSVT:embedding-normalised"] = COUNTS.get("QSVT:embedding-normalised", 0) + 1
+        target = polyval_mat(poly, Aeff.astype(complex))
         dd = d
     else:
         nt = rng.randint(1, 2)
